@@ -28,6 +28,7 @@ package loadbalance
 
 //@ func RandomLoadBalance
 //@   prop C19
+//@   defs nopanic-bounds
 //@   requires sessions != nil
 //@   ensures live: result != nil ==> hadkey(syncmapp(sessions), result) && !ufb("session.closed", result)
 //@   ensures nil-only-if-none-open: result == nil ==> foralls(s, getty.Session, hadkey(syncmapp(sessions), s) ==> ufb("session.closed", s))
@@ -51,6 +52,7 @@ package loadbalance
 
 //@ func LeastActiveLoadBalance
 //@   prop C19
+//@   defs nopanic-bounds
 //@   requires sessions != nil
 //@   ensures live: result != nil ==> hadkey(syncmapp(sessions), result) && !ufb("session.closed", result)
 //@   ensures nil-only-if-none-open: result == nil ==> foralls(s, getty.Session, hadkey(syncmapp(sessions), s) ==> ufb("session.closed", s))
@@ -98,6 +100,7 @@ package loadbalance
 
 //@ func RoundRobinLoadBalance
 //@   prop C19
+//@   defs nopanic-bounds
 //@   requires sessions != nil
 //@   ensures live: result != nil ==> hadkey(syncmapp(sessions), result) && !ufb("session.closed", result)
 //@   ensures nil-only-if-none-open: result == nil ==> foralls(s, getty.Session, hadkey(syncmapp(sessions), s) ==> ufb("session.closed", s))
